@@ -1,396 +1,238 @@
-"""Fail-closed translator: the judgement functions of `impl Pattern` in rust/src/lib.rs  ->  coq/Gen/Judge.v.
+"""Fail-closed translator: the judgement functions of `impl Pattern` in rust/src/lib.rs  ->  coq/Gen/Judge.v  (expression level).
 
-Translated functions: e_fresh, s_fresh, positive, negative, is_redundant_subst, well_formed.
-The accepted Rust subset is exactly what these functions use (one `match self` whose arms are boolean
-expressions, or blocks of `if c { return e; }`, `let x = e;`, `return e;` and a tail expression).
-Anything else raises SystemExit naming the offending token: the proof stage is then broken.
+Translated functions: e_fresh, s_fresh, positive, negative, is_redundant_subst, well_formed. Each is `match self { ARMS }`; arms may be
+alternatives (`A | B`), guarded, or the wildcard, and are compiled per constructor of [pat] with Rust's first-match semantics. A body is a boolean
+expression or a block of `let x = BOOL;`, `if C { return BOOL; }`, `return BOOL;` and a tail expression; boolean expressions are built from
+`true false && || ! == !=`, `LIST.contains(&x)`, recursive / sibling judgement calls `sub.judge(x)`, `self.is_redundant_subst()`,
+`LIST.iter().any/all(|h| ..)`, `matches!(sub.as_ref(), A | B ..)`, and pattern equalities `evar(id) == *plug` / `**plug == Pattern::EVar(id)`.
+`unimplemented!`/`panic!` is `None` (only `well_formed` may panic). Renaming, merged or reordered disjoint arms, `!any` vs `all(!)`, folded early
+returns change at most bound names or boolean structure (the agreement proofs decide boolean equivalence by case analysis); a dropped conjunct,
+a different list or judgement, a swapped polarity changes the function.
 """
 import os
 import re
 import sys
 
+sys.path.insert(0, os.path.dirname(os.path.abspath(__file__)))
+from rust_exec import norm, split_stmts, split_arms, split_top, match_close  # noqa: E402
+
 FUNCS = ['e_fresh', 's_fresh', 'positive', 'negative', 'is_redundant_subst', 'well_formed']
-CTOR = {  # Rust constructor -> (Coq constructor, ordered field names)
-    'EVar': ('EVar', ['0']), 'SVar': ('SVar', ['0']), 'Symbol': ('Sym', ['0']),
-    'Implies': ('Imp', ['left', 'right']), 'App': ('App', ['left', 'right']),
-    'Exists': ('Ex', ['var', 'subpattern']), 'Mu': ('Mu', ['var', 'subpattern']),
-    'MetaVar': ('MVar', ['id', 'e_fresh', 's_fresh', 'positive', 'negative', 'app_ctx_holes']),
-    'ESubst': ('ESub', ['pattern', 'evar_id', 'plug']), 'SSubst': ('SSub', ['pattern', 'svar_id', 'plug']),
-}
-TOK = re.compile(r'\s*(?:(//[^\n]*)|("(?:[^"\\]|\\.)*")|(::|=>|&&|\|\||!=|==|->|\.\.|[A-Za-z_][A-Za-z0-9_]*|[{}()\[\],;*&!.|=:<>]))')
+CTORS = [('EVar', 'EVar', ['0']), ('SVar', 'SVar', ['0']), ('Symbol', 'Sym', ['0']), ('Implies', 'Imp', ['left', 'right']),
+         ('App', 'App', ['left', 'right']), ('Exists', 'Ex', ['var', 'subpattern']), ('Mu', 'Mu', ['var', 'subpattern']),
+         ('MetaVar', 'MVar', ['id', 'e_fresh', 's_fresh', 'positive', 'negative', 'app_ctx_holes']),
+         ('ESubst', 'ESub', ['pattern', 'evar_id', 'plug']), ('SSubst', 'SSub', ['pattern', 'svar_id', 'plug'])]
+COQC = {r: c for r, c, _ in CTORS}
+NFIELDS = {r: len(f) for r, _, f in CTORS}
+GEN = {'e_fresh': 'gen_e_fresh', 's_fresh': 'gen_s_fresh', 'positive': 'gen_positive', 'negative': 'gen_negative'}
+PATCON = {'evar': 'EVar', 'svar': 'SVar', 'symbol': 'Sym'}
 
 
 def fail(msg):
     raise SystemExit('rust_judge translator: ' + msg)
 
 
-def tokenize(src):
-    pos, out = 0, []
-    while pos < len(src):
-        m = TOK.match(src, pos)
-        if not m:
-            if src[pos:].strip() == '':
-                break
-            fail(f'cannot tokenize at {src[pos:pos + 30]!r}')
-        pos = m.end()
-        if m.group(1):
-            continue
-        out.append(m.group(2) or m.group(3))
-    return out
-
-
-class P:
-    def __init__(self, toks, fname):
-        self.t, self.i, self.fname = toks, 0, fname
-
-    def peek(self, k=0):
-        return self.t[self.i + k] if self.i + k < len(self.t) else None
-
-    def eat(self, x=None):
-        tok = self.peek()
-        if x is not None and tok != x:
-            fail(f'in fn {self.fname}: expected {x!r}, got {tok!r} (context {" ".join(self.t[max(0, self.i - 6):self.i + 4])})')
-        self.i += 1
-        return tok
-
-    # ---- function
-    def function(self):
-        self.eat('fn')
-        name = self.eat()
-        self.eat('(')
-        self.eat('&')
-        self.eat('self')
-        arg = None
-        if self.peek() == ',':
-            self.eat(',')
-            arg = self.eat()
-            self.eat(':')
-            self.eat('Id')
-        self.eat(')')
-        self.eat('->')
-        self.eat('bool')
-        self.eat('{')
-        self.eat('match')
-        self.eat('self')
-        self.eat('{')
-        arms = []
-        while self.peek() != '}':
-            arms.append(self.arm())
-        self.eat('}')
-        self.eat('}')
-        return name, arg, arms
-
-    def arm(self):
-        pat = self.pattern()
-        self.eat('=>')
-        if self.peek() == '{':
-            self.eat('{')
-            body = self.block()
-            self.eat('}')
-        elif self.peek() == 'return':
-            self.eat('return')
-            body = self.expr()
-        else:
-            body = self.expr()
-        if self.peek() == ',':
-            self.eat(',')
-        return pat, body
-
-    def pattern(self):
-        if self.peek() == '_':
-            self.eat()
-            return ('_',)
-        self.eat('Pattern')
-        self.eat('::')
-        c = self.eat()
-        if c not in CTOR:
-            fail(f'in fn {self.fname}: unknown constructor {c}')
-        fields = {}
-        if self.peek() == '(':
-            self.eat('(')
-            fields['0'] = self.eat()
-            self.eat(')')
-        else:
-            self.eat('{')
-            while self.peek() != '}':
-                tok = self.eat()
-                if tok == '..':
-                    pass
-                else:
-                    if tok not in CTOR[c][1]:
-                        fail(f'in fn {self.fname}: unknown field {tok} of {c}')
-                    fields[tok] = tok
-                if self.peek() == ',':
-                    self.eat(',')
-            self.eat('}')
-        return (c, fields)
-
-    def block(self):
-        """returns an expression tree"""
-        tok = self.peek()
-        if tok == 'if':
-            self.eat('if')
-            c = self.expr()
-            self.eat('{')
-            self.eat('return')
-            e = self.expr()
-            self.eat(';')
-            self.eat('}')
-            rest = self.block()
-            return ('ite', c, e, rest)
-        if tok == 'let':
-            self.eat('let')
-            v = self.eat()
-            self.eat('=')
-            e = self.expr()
-            self.eat(';')
-            return ('let', v, e, self.block())
-        if tok == 'return':
-            self.eat('return')
-            e = self.expr()
-            self.eat(';')
-            if self.peek() != '}':
-                fail(f'in fn {self.fname}: code after return')
-            return e
-        if tok == 'unimplemented':
-            self.eat()
-            self.eat('!')
-            self.eat('(')
-            depth = 1
-            while depth:
-                t = self.eat()
-                depth += (t == '(') - (t == ')')
-            if self.peek() == ';':
-                self.eat(';')
-            return ('panic',)
-        e = self.expr()
-        if self.peek() != '}':
-            fail(f'in fn {self.fname}: expected end of block, got {self.peek()!r}')
-        return e
-
-    def expr(self):
-        e = self.and_()
-        while self.peek() == '||':
-            self.eat()
-            e = ('or', e, self.and_())
-        return e
-
-    def and_(self):
-        e = self.unary()
-        while self.peek() == '&&':
-            self.eat()
-            e = ('and', e, self.unary())
-        return e
-
-    def unary(self):
-        if self.peek() == '!':
-            self.eat()
-            return ('not', self.unary())
-        return self.cmp()
-
-    def cmp(self):
-        a = self.prim()
-        if self.peek() in ('==', '!='):
-            op = self.eat()
-            b = self.prim()
-            return ('eq' if op == '==' else 'ne', a, b)
-        return a
-
-    def prim(self):
-        tok = self.peek()
-        if tok in ('true', 'false'):
-            self.eat()
-            return ('const', tok)
-        if tok == '(':
-            self.eat('(')
-            e = self.expr()
-            self.eat(')')
-            return e
-        if tok == '*':
-            self.eat('*')
-            return ('var', self.eat())
-        if tok == 'matches':
-            self.eat()
-            self.eat('!')
-            self.eat('(')
-            v = self.eat()
-            self.eat('.')
-            self.eat('as_ref')
-            self.eat('(')
-            self.eat(')')
-            self.eat(',')
-            alts = []
-            while True:
-                self.eat('Pattern')
-                self.eat('::')
-                c = self.eat()
-                self.eat('{')
-                self.eat('..')
-                self.eat('}')
-                alts.append(c)
-                if self.peek() == '|':
-                    self.eat('|')
-                else:
-                    break
-            self.eat(')')
-            return ('matches', v, alts)
-        if tok in ('evar', 'svar') and self.peek(1) == '(':
-            self.eat()
-            self.eat('(')
-            self.eat('*')
-            v = self.eat()
-            self.eat(')')
-            return ('mkvar', tok, v)
-        if tok == 'unimplemented':
-            return self.block()
-        if not re.fullmatch(r'[A-Za-z_][A-Za-z0-9_]*', tok or ''):
-            fail(f'in fn {self.fname}: unexpected token {tok!r}')
-        name = self.eat()
-        e = ('var', name)
-        while self.peek() == '.':
-            self.eat('.')
-            m = self.eat()
-            self.eat('(')
-            if m == 'contains':
-                if self.peek() == '&':
-                    self.eat('&')
-                a = self.eat()
-                self.eat(')')
-                e = ('contains', e, ('var', a))
-            elif m == 'into_iter':
-                self.eat(')')
-                self.eat('.')
-                self.eat('any')
-                self.eat('(')
-                self.eat('|')
-                v = self.eat()
-                self.eat('|')
-                body = self.expr()
-                self.eat(')')
-                e = ('any', e, v, body)
-            elif m in FUNCS:
-                if self.peek() == ')':
-                    self.eat(')')
-                    e = ('call', m, e, None)
-                else:
-                    if self.peek() == '*':
-                        self.eat('*')
-                    a = self.eat()
-                    self.eat(')')
-                    e = ('call', m, e, ('var', a))
-            else:
-                fail(f'in fn {self.fname}: unknown method .{m}()')
-        return e
-
-
-def find_fn(src, name):
-    m = re.search(r'\n    fn ' + name + r'\(&self', src)
+def find_method(src, name):
+    m = re.search(r'\n    fn ' + name + r'\(', src)
     if not m:
         fail(f'fn {name} not found in impl Pattern')
-    start = m.start() + 1
-    i = src.index('{', start)
-    depth = 0
-    j = i
-    while True:
-        if src[j] == '{':
-            depth += 1
-        elif src[j] == '}':
-            depth -= 1
-            if depth == 0:
+    i = src.index('{', m.start())
+    return src[m.start() + 1:match_close(src, i) + 1]
+
+
+def parse_alt(alt):
+    alt = alt.strip()
+    if alt == '_':
+        return '_', {}
+    m = re.fullmatch(r'Pattern::(\w+)\((\w+)\)', alt)
+    if m:
+        return m.group(1), ({} if m.group(2) == '_' else {m.group(2): '0'})
+    m = re.fullmatch(r'Pattern::(\w+) \{ ?(.*?) ?\}', alt)
+    if m:
+        bind = {}
+        for g in [x.strip() for x in m.group(2).split(',')]:
+            if g == '..' or not g:
+                continue
+            if ':' in g:
+                k, val = [x.strip() for x in g.split(':', 1)]
+            else:
+                k = val = g
+            if val != '_':
+                bind[val] = k
+        return m.group(1), bind
+    fail('unrecognised arm pattern: ' + alt)
+
+
+class Fn:
+    def __init__(self, name, param):
+        self.name, self.param = name, param
+        self.partial = name == 'well_formed'
+
+    def ident(self, x, env):
+        x = x.strip().lstrip('&*')
+        if x == self.param and self.param:
+            return 'q_' + x
+        if x in env:
+            return env[x]
+        if re.fullmatch(r'\d+', x):
+            return x
+        fail(f'in fn {self.name}: unbound name {x}')
+
+    def patexpr(self, e, env):
+        """a pattern-valued expression (only in equalities)"""
+        e = e.strip()
+        while e.startswith('*') or e.startswith('&'):
+            e = e[1:]
+        m = re.fullmatch(r'(evar|svar|symbol)\((.*)\)', e)
+        if m:
+            return f'({PATCON[m.group(1)]} {self.ident(m.group(2), env)})'
+        m = re.fullmatch(r'Pattern::(EVar|SVar|Symbol)\((.*)\)', e)
+        if m:
+            return f"({ {'EVar': 'EVar', 'SVar': 'SVar', 'Symbol': 'Sym'}[m.group(1)] } {self.ident(m.group(2), env)})"
+        if re.fullmatch(r'\w+', e) and e in env and env[e].startswith('c_'):
+            return env[e]
+        if e == 'self':
+            return 'p'
+        return None
+
+    def bexp(self, e, env):
+        e = e.strip()
+        parts = split_top(e.replace('||', '\x00'), '\x00')
+        if len(parts) > 1:
+            return '(' + ' || '.join(self.bexp(x, env) for x in parts) + ')'
+        parts = split_top(e.replace('&&', '\x00'), '\x00')
+        if len(parts) > 1:
+            return '(' + ' && '.join(self.bexp(x, env) for x in parts) + ')'
+        if e.startswith('(') and match_close(e, 0) == len(e) - 1:
+            return self.bexp(e[1:-1], env)
+        if e in ('true', 'false'):
+            return e
+        if e.startswith('!') and not e.startswith('!='):
+            return f'(negb {self.bexp(e[1:], env)})'
+        m = re.fullmatch(r'matches!\((\w+)\.as_ref\(\), (.*)\)', e)
+        if m:
+            alts = [parse_alt(a)[0] for a in split_top(m.group(2), '|')]
+            pats = ' | '.join(COQC[a] + ' _' * NFIELDS[a] for a in alts)
+            return f'(match {self.ident(m.group(1), env)} with {pats} => true | _ => false end)'
+        m = re.fullmatch(r'(\w+)\.(?:into_iter|iter)\(\)\.(any|all)\(\|&?(\w+)\| (.*)\)', e)
+        if m:
+            lst, q, var, body = m.groups()
+            env2 = dict(env)
+            env2[var] = 'h_' + var
+            return f"({'existsb' if q == 'any' else 'forallb'} (fun h_{var} => {self.bexp(body, env2)}) {self.ident(lst, env)})"
+        m = re.fullmatch(r'(\w+)\.contains\((.*)\)', e)
+        if m:
+            return f'(mem {self.ident(m.group(2), env)} {self.ident(m.group(1), env)})'
+        m = re.fullmatch(r'(\w+)\.(e_fresh|s_fresh|positive|negative)\((.*)\)', e)
+        if m:
+            return f'({GEN[m.group(2)]} {self.ident(m.group(1), env)} {self.ident(m.group(3), env)})'
+        if e == 'self.is_redundant_subst()':
+            return '(gen_is_redundant_subst p)'
+        m = re.fullmatch(r'(.*?) (==|!=) (.*)', e)
+        if m:
+            a, op, b = m.groups()
+            pa, pb = self.patexpr(a, env), self.patexpr(b, env)
+            if (pa is not None and pa.startswith('(')) or (pb is not None and pb.startswith('(')):
+                if pa is None or pb is None:
+                    fail(f'in fn {self.name}: pattern equality with a non-pattern side: {e}')
+                # canonical: the constructed pattern first
+                if not pa.startswith('('):
+                    pa, pb = pb, pa
+                r = f'(pat_eqb {pa} {pb})'
+            else:
+                r = f'(N.eqb {self.ident(a, env)} {self.ident(b, env)})'
+            return r if op == '==' else f'(negb {r})'
+        if re.fullmatch(r'\w+', e) and e in env and env[e].startswith('l_'):
+            return env[e]
+        fail(f'in fn {self.name}: unrecognised boolean expression: {e[:100]}')
+
+    def block(self, stmts, env):
+        """-> Coq term: bool (or option bool for well_formed)"""
+        if not stmts:
+            fail(f'in fn {self.name}: block without a value')
+        s = stmts[0].strip().rstrip(';').strip()
+        more = stmts[1:]
+        if re.fullmatch(r'(unimplemented|panic|unreachable)!\(.*\)', s):
+            if not self.partial:
+                fail(f'fn {self.name} may panic')
+            return 'None'
+        m = re.fullmatch(r'let (\w+) = (.*)', s)
+        if m and more:
+            env2 = dict(env)
+            env2[m.group(1)] = 'l_' + m.group(1)
+            return f'(let l_{m.group(1)} := {self.bexp(m.group(2), env)} in {self.block(more, env2)})'
+        m = re.fullmatch(r'if (.*?) \{ return (.*?);? \}', s)
+        if m and more and match_close(s, s.index('{')) == len(s) - 1:
+            return f'(if {self.bexp(m.group(1), env)} then {self.block([m.group(2)], env)} else {self.block(more, env)})'
+        if more:
+            fail(f'in fn {self.name}: statement not recognised: {s[:100]}')
+        if s.startswith('return '):
+            s = s[len('return '):]
+        if s.startswith('if ') and s.endswith('}'):
+            i = s.index('{')
+            j = match_close(s, i)
+            tail = s[j + 1:].strip()
+            if tail.startswith('else'):
+                k = tail.index('{')
+                return (f'(if {self.bexp(s[3:i], env)} then {self.block(split_stmts(s[i + 1:j]), env)} '
+                        f'else {self.block(split_stmts(tail[k + 1:-1]), env)})')
+        b = self.bexp(s, env)
+        return f'Some {b}' if self.partial else b
+
+
+def translate(src, name):
+    text = norm(find_method(src, name))
+    m = re.fullmatch(r'fn ' + name + r'\(&self(?:, (\w+): Id)?\) -> bool \{ (?:return )?match self \{ (.*) \};? \}', text)
+    if not m:
+        fail(f'unexpected shape of fn {name}: ' + text[:160])
+    param, body = m.groups()
+    f = Fn(name, param)
+    arms = []
+    for pat, btext, is_block in split_arms(body):
+        guard = None
+        if ' if ' in pat:
+            pat, guard = pat.split(' if ', 1)
+        arms.append(([parse_alt(a) for a in split_top(pat, '|')], guard, btext, is_block))
+    out = []
+    for rust, coq, fields in CTORS:
+        cvars = ['c_' + x for x in fields]
+        chain = []
+        for alts, guard, btext, is_block in arms:
+            hit = [b for (c, b) in alts if c == rust or c == '_']
+            if not hit:
+                continue
+            env = {loc: 'c_' + fld for loc, fld in hit[0].items()}
+            for fld in env.values():
+                if fld not in cvars:
+                    fail(f'{name}: field {fld} of {rust}')
+            stmts = split_stmts(btext) if is_block else [btext]
+            b = f.block(stmts, env)
+            if guard is None:
+                chain.append((None, b))
                 break
-        j += 1
-    return src[start:j + 1]
-
-
-def V(name):
-    return 'f_' + name if name != 'self' else 'p'
-
-
-def emit(e, fname, patty):
-    k = e[0]
-    if k == 'const':
-        return e[1]
-    if k == 'var':
-        return V(e[1])
-    if k == 'or':
-        return f'({emit(e[1], fname, patty)} || {emit(e[2], fname, patty)})'
-    if k == 'and':
-        return f'({emit(e[1], fname, patty)} && {emit(e[2], fname, patty)})'
-    if k == 'not':
-        return f'(negb {emit(e[1], fname, patty)})'
-    if k in ('eq', 'ne'):
-        a, b = e[1], e[2]
-        if a[0] == 'mkvar':
-            ctor = 'EVar' if a[1] == 'evar' else 'SVar'
-            r = f'(pat_eqb ({ctor} {V(a[2])}) {emit(b, fname, patty)})'
-        else:
-            r = f'(N.eqb {emit(a, fname, patty)} {emit(b, fname, patty)})'
-        return r if k == 'eq' else f'(negb {r})'
-    if k == 'contains':
-        return f'(mem {emit(e[2], fname, patty)} {emit(e[1], fname, patty)})'
-    if k == 'any':
-        return f'(existsb (fun {V(e[2])} => {emit(e[3], fname, patty)}) {emit(e[1], fname, patty)})'
-    if k == 'call':
-        if e[3] is None:
-            return f'(gen_{e[1]} {emit(e[2], fname, patty)})'
-        return f'(gen_{e[1]} {emit(e[2], fname, patty)} {emit(e[3], fname, patty)})'
-    if k == 'matches':
-        alts = ' | '.join(CTOR[c][0] + ' _' * len(CTOR[c][1]) for c in e[2])
-        return f'(match {V(e[1])} with {alts} => true | _ => false end)'
-    if k == 'ite':
-        return f'(if {emit(e[1], fname, patty)} then {emit(e[2], fname, patty)} else {emit(e[3], fname, patty)})'
-    if k == 'let':
-        return f'(let {V(e[1])} := {emit(e[2], fname, patty)} in {emit(e[3], fname, patty)})'
-    fail(f'in fn {fname}: cannot emit {k}')
-
-
-def has_panic(arms):
-    return any(b == ('panic',) for _, b in arms)
-
-
-def gen_function(name, arg, arms, keyword):
-    partial = has_panic(arms)
-    lines = []
-    sig = f'{keyword} gen_{name} (p:pat)' + (f' ({V(arg)}:N)' if arg else '') + (' {struct p}' if keyword in ('Fixpoint', 'with') else '') \
-        + (' : option bool :=' if partial else ' : bool :=')
-    lines.append(sig)
-    lines.append('  match p with')
-    for pat, body in arms:
-        if pat == ('_',):
-            lhs = '_'
-        else:
-            c, fields = pat
-            coq, order = CTOR[c]
-            lhs = coq + ''.join(' ' + (V(fields[f]) if f in fields else '_') for f in order)
-        if body == ('panic',):
-            rhs = 'None'
-        else:
-            rhs = emit(body, name, None)
-            if partial:
-                rhs = f'Some {rhs}'
-        lines.append(f'  | {lhs} => {rhs}')
-    lines.append('  end')
-    return '\n'.join(lines)
+            chain.append((f.bexp(guard, env), b))
+        if not chain or chain[-1][0] is not None:
+            fail(f'{name}: no unguarded arm covers {rust}')
+        code = chain[-1][1]
+        for g, b in reversed(chain[:-1]):
+            code = f'(if {g} then {b} else {code})'
+        out.append(f'  | {coq} {" ".join(cvars)} => {code}')
+    return param, out
 
 
 def generate(repo):
     src = open(os.path.join(repo, 'rust/src/lib.rs')).read()
-    parsed = {}
-    for f in FUNCS:
-        text = find_fn(src, f)
-        p = P(tokenize(text), f)
-        name, arg, arms = p.function()
-        if p.peek() is not None:
-            fail(f'in fn {f}: trailing tokens')
-        parsed[f] = (arg, arms)
-    out = ['(** GENERATED by translators/rust_judge.py from rust/src/lib.rs (impl Pattern) — do not edit *)',
-           'From Coq Require Import NArith List Bool.', 'From Pi2 Require Import ML.Syntax.', 'Import ListNotations.', 'Open Scope N_scope.', '']
-    out.append(gen_function('e_fresh', *parsed['e_fresh'], 'Fixpoint') + '.\n')
-    out.append(gen_function('s_fresh', *parsed['s_fresh'], 'Fixpoint') + '.\n')
-    out.append(gen_function('positive', *parsed['positive'], 'Fixpoint') + '\n' + gen_function('negative', *parsed['negative'], 'with') + '.\n')
-    out.append(gen_function('is_redundant_subst', *parsed['is_redundant_subst'], 'Definition') + '.\n')
-    out.append(gen_function('well_formed', *parsed['well_formed'], 'Definition') + '.\n')
-    return '\n'.join(out)
+    src = src.split('\n#[cfg(test)]\nmod tests')[0]
+    t = {n: translate(src, n) for n in FUNCS}
+
+    def fix(name, kw='Fixpoint'):
+        par, arms = t[name]
+        return f'{kw} gen_{name} (p:pat) (q_{par}:N) {{struct p}} : bool :=\n  match p with\n' + '\n'.join(arms) + '\n  end'
+    lines = ['(** GENERATED by translators/rust_judge.py from rust/src/lib.rs (impl Pattern) — do not edit *)',
+             'From Coq Require Import NArith List Bool.', 'From Pi2 Require Import ML.Syntax.', 'Import ListNotations.', 'Open Scope N_scope.', '',
+             fix('e_fresh') + '.', '', fix('s_fresh') + '.', '', fix('positive') + '\n' + fix('negative', 'with') + '.', '',
+             'Definition gen_is_redundant_subst (p:pat) : bool :=\n  match p with\n' + '\n'.join(t['is_redundant_subst'][1]) + '\n  end.', '',
+             'Definition gen_well_formed (p:pat) : option bool :=\n  match p with\n' + '\n'.join(t['well_formed'][1]) + '\n  end.', '']
+    return '\n'.join(lines)
 
 
 if __name__ == '__main__':
